@@ -39,7 +39,7 @@ Where the model is ahead of / behind the log:
 * `closed`/`perErr` have no event: thread 0 of every candidate is a `closer`, thread 1 a `perErrH`; an early
   `ret <w> closed` / `ret <w> err` of a writer still selecting makes them start.
 -/
-namespace GoLevel.Driver
+namespace GoLevel.Driver.Wp
 open GoLevel GoLevel.WP
 
 /-- phase of the current leader as far as the hook events tell -/
@@ -316,4 +316,8 @@ def handleWp (v : WpState) (args : List String) : Option (WpState × String) :=
     | .ok v' => some (v', "ok")
     | .error why => some (v, "illegal " ++ why)
 
+end GoLevel.Driver.Wp
+
+namespace GoLevel.Driver
+export Wp (WpState initWp handleWp)
 end GoLevel.Driver
